@@ -145,3 +145,22 @@ PROPS["C05"] = dict(
     technique="bounded-exhaustive enumeration (all of GL_n(2) for small n, all small unit-triangular matrices, lifts) on the real code against a reference inverse",
     assumptions=["reference product / inverse in harness/vx.c", "clang 14 ASan+UBSan builds: host, min-cache with/without SSE2"],
 )
+
+def _c08_runs(tier):
+    rs = []
+    for mode in ("add", "transpose", "transpose_big", "copy", "submatrix", "concat"):
+        rs.append(Run(C(), "harness/p_c08.c", ["--mode=" + mode, "--setbits=24"], group=mode))
+    for mode in ("add", "transpose_big") + (("transpose", "copy", "submatrix", "concat") if tier == "thorough" else ()):
+        rs.append(Run(C(sse2=0, simd="native", **MIN), "harness/p_c08.c", ["--mode=" + mode, "--setbits=24"], group=mode))
+    if tier == "thorough":
+        rs.append(Run(C(instr="plain"), "harness/p_c08.c", ["--mode=transpose_units", "--setbits=27"], group="transpose_units"))
+    return rs
+
+PROPS["C08"] = dict(
+    level="exploration", runs=_c08_runs,
+    rule="mzd_add/_mzd_add x 6 aliasing forms x rows {1,2,3} x every ncols in 1..130 and 64w+{-1,0,1} (w up to 10) x {all label planes LBL(b) for A resp. complemented planes for B (complete routing), ones+ones, PR pairs}; mzd_transpose for EVERY shape in 1..130 x 1..130 (all label planes and their complements; thorough additionally every single-entry source of every shape = 7.25e7 cases) with NULL/supplied destinations and transpose-twice, plus shapes up to 1300 (64-blocks, tails, recursive splits); mzd_copy, mzd_copy_row, mzd_set_ui over the same widths; mzd_submatrix for EVERY (startcol, ncols) inside a 200-column source and wide aligned/unaligned cases; mzd_concat for (ncolsA, ncolsB) in 1..130 squared , mzd_stack, mzd_extract_u/l for every n in 1..130 and non-square shapes; supplied destinations are pre-filled with ones; non-trivial = source not all-zero; distinct = distinct (operation, form, shape, pattern)",
+    level_text="Bounded-exhaustive exploration of the data-movement routines: every shape residue, every width-specialised loop, every transpose kernel size class and every sub-matrix offset pair is executed; label-plane patterns and their complements determine the complete input-bit to output-bit routing, so 'every source entry at exactly its position and nothing else' is decided for each shape, not sampled.",
+    level_note="Bounded: shapes up to 130 x 130 exhaustively, selected shapes up to 1300; routing completeness relies on the operations being bit-routing / XOR (a non-linear defect is caught by the ones+ones and dense patterns only).",
+    technique="bounded-exhaustive enumeration of shapes/offsets with complete routing bases on the real code against a reference model",
+    assumptions=["reference routing in harness/vx.c", "clang 14 ASan+UBSan builds: host with SSE2, min-cache without SSE2 and native SIMD flags"],
+)
